@@ -231,6 +231,37 @@ func runSigdb(sc M) {
 				db.AppendList(sl)
 				sl = nil
 				res = "ok"
+			case "load":
+				// a database that was not built by the library: the preset (abstract lists from the specification) is written by the
+				// independent encoder and decoded
+				want := sc["presets"].(M)[d].([]interface{})
+				var b bytes.Buffer
+				for _, l0 := range want {
+					l := l0.(M)
+					b.Write(wire(typeGUIDWire, str(l, "type")))
+					b.Write(le32(uint32(num(l, "listsize"))))
+					b.Write(le32(uint32(num(l, "hdrsize"))))
+					b.Write(le32(uint32(num(l, "size"))))
+					for _, e0 := range list(l, "entries") {
+						e := e0.(M)
+						b.Write(wire(ownerGUIDWire, str(e, "owner")))
+						b.Write(sigdbData[str(e, "data")].bytes)
+					}
+				}
+				ev["want"] = want
+				var nd signature.SignatureDatabase
+				var err error
+				if len(want)%2 == 0 {
+					nd, err = signature.ReadSignatureDatabase(bytes.NewReader(b.Bytes()))
+				} else {
+					err = nd.Unmarshal(bytes.NewBuffer(b.Bytes()))
+				}
+				if err != nil {
+					res = "error"
+					return nil
+				}
+				*db = nd
+				res = "ok"
 			case "recode":
 				b := db.Bytes()
 				var nd signature.SignatureDatabase
